@@ -3,7 +3,12 @@
 package main
 
 import (
+	"bytes"
 	"fmt"
+	"go/ast"
+	"go/parser"
+	"go/printer"
+	"go/token"
 	"strings"
 
 	"github.com/cenkalti/rain/v2/internal/peerprotocol"
@@ -20,9 +25,15 @@ import (
 //	    peerprotocol.ExtensionMessage.UnmarshalBinary (negative-size clamp), then the real
 //	    (*torrent).nextInfoDownload runs (shim VerifNextInfoDownload in package torrent).
 //	    obs: pick=<index|none> buf=<len(Bytes)> sizes=<decoded MetadataSize per peer, x = no handshake>
+//	gate
+//	    Exec: guard skeleton of the `Data` case of (*torrent).handleMetadataMessage read from the
+//	    source the binary was built from (go/ast): the ordered `if … break` guards before
+//	    `t.info = info`, what is hashed, what is parsed, what is assigned.
+//	    obs: guards=<cond=>break;…> hashed=<expr> parsed=<expr> assigned=<expr>
 //
-// The hash gate of handleMetadataMessage itself needs peers with running connections and the
-// event loop; it is left to the loop harness (see notes/C13.md).
+// Running the hash gate of handleMetadataMessage needs peers with live connections and the event
+// loop; that dynamic tie is left to the loop harness (see notes/C13.md).  `gate` is the
+// translator-style tie of DESIGN 1 for the same statement.
 
 func init() {
 	register(&Suite{Name: "adopt", Gen: genAdopt, Exec: execAdopt})
@@ -32,6 +43,10 @@ func execAdopt(ops []string) []string {
 	var obs []string
 	for _, op := range ops {
 		m := kv(op)
+		if m["_"] == "gate" {
+			obs = append(obs, adoptGateSkeleton())
+			continue
+		}
 		if m["_"] != "next" {
 			obs = append(obs, "unknown-op")
 			continue
@@ -85,8 +100,88 @@ func execAdopt(ops []string) []string {
 	return obs
 }
 
+// adoptGateSkeleton is the translator-style tie for the hash gate: it reads the source of
+// (*torrent).handleMetadataMessage the binary was built from and prints, for the `Data` case, the
+// ordered guards (top-level `if … { …; break }` conditions) that precede the statement
+// `t.info = info`, what is hashed, what is parsed and what is assigned.
+func adoptGateSkeleton() string {
+	path := torrent.VerifMetadataHandlerSource()
+	fset := token.NewFileSet()
+	f, err := parser.ParseFile(fset, path, nil, 0)
+	if err != nil {
+		return "gate-error:parse"
+	}
+	show := func(n ast.Node) string {
+		var b bytes.Buffer
+		_ = printer.Fprint(&b, fset, n)
+		return strings.Join(strings.Fields(b.String()), "")
+	}
+	var body []ast.Stmt
+	for _, d := range f.Decls {
+		fd, ok := d.(*ast.FuncDecl)
+		if !ok || fd.Name.Name != "handleMetadataMessage" {
+			continue
+		}
+		ast.Inspect(fd, func(n ast.Node) bool {
+			cc, ok := n.(*ast.CaseClause)
+			if ok && len(cc.List) == 1 && strings.HasSuffix(show(cc.List[0]), "ExtensionMetadataMessageTypeData") {
+				body = cc.Body
+				return false
+			}
+			return true
+		})
+	}
+	if body == nil {
+		return "gate-error:no-data-case"
+	}
+	var guards, hashed, parsed []string
+	assigned := "-"
+	for _, st := range body {
+		if as, ok := st.(*ast.AssignStmt); ok && len(as.Lhs) == 1 && show(as.Lhs[0]) == "t.info" {
+			assigned = show(as.Rhs[0])
+			break
+		}
+		if is, ok := st.(*ast.IfStmt); ok {
+			term := "fall"
+			if n := len(is.Body.List); n > 0 {
+				if br, ok := is.Body.List[n-1].(*ast.BranchStmt); ok && br.Tok == token.BREAK {
+					term = "break"
+				}
+			}
+			if is.Else != nil {
+				term += "+else"
+			}
+			guards = append(guards, show(is.Cond)+"=>"+term)
+		}
+		ast.Inspect(st, func(n ast.Node) bool {
+			if _, isIf := n.(*ast.IfStmt); isIf && n != st {
+				return true
+			}
+			ce, ok := n.(*ast.CallExpr)
+			if !ok {
+				return true
+			}
+			switch fn := show(ce.Fun); {
+			case strings.HasSuffix(fn, ".Write") && strings.HasPrefix(fn, "hash"):
+				hashed = append(hashed, show(ce.Args[0]))
+			case strings.HasSuffix(fn, ".parseInfo"):
+				parsed = append(parsed, show(ce.Args[0]))
+			}
+			return true
+		})
+	}
+	semi := func(xs []string) string {
+		if len(xs) == 0 {
+			return "-"
+		}
+		return strings.Join(xs, ";")
+	}
+	return fmt.Sprintf("guards=%s hashed=%s parsed=%s assigned=%s", semi(guards), semi(hashed), semi(parsed), assigned)
+}
+
 func genAdopt(r *Rng, n int, tier string) []Case {
 	var cases []Case
+	cases = append(cases, Case{ID: "adopt-gate", Ops: []string{"gate"}})
 	for c := 0; c < n; c++ {
 		max := r.Pick(1, 16, 100, 16384, 16385, 100000, 1<<20)
 		np := r.Range(0, 5)
